@@ -28,9 +28,9 @@ func init() {
 			return 900
 		},
 		Batch: func(t string) int { return 30 },
-		Floors: []string{"sink_faults", "sink_exhaustive_files", "sink_mode_error", "sink_mode_short", "sink_mode_transient", "truncations", "truncation_exhaustive_files", "readat_faults", "readat_mode_error", "readat_mode_short_error", "readat_mode_early_eof", "readat_mode_persistent_short_eof", "copy_source_faults",
-			"scenario_plain", "scenario_nobuf", "scenario_file_pages", "scenario_deferred_bloom", "scenario_sorting_writer", "scenario_concurrent_rowgroups", "scenario_copy_rowgroup", "scenario_chunk_pages"},
-		Rule: "three fault families over 8 writer scenarios (default, WriteBufferSize 0/1, file- and chunk-backed page buffers, deferred bloom filters, SortingWriter, concurrent row groups, WriteRowGroup copy path): " +
+		Floors: []string{"sink_faults", "sink_exhaustive_files", "sink_mode_error", "sink_mode_short", "sink_mode_transient", "truncations", "truncation_exhaustive_files", "readat_faults", "readat_mode_error", "readat_mode_short_error", "readat_mode_early_eof", "readat_mode_persistent_short_eof", "copy_source_faults", "readat_faults_column_reads",
+			"scenario_plain", "scenario_nobuf", "scenario_file_pages", "scenario_deferred_bloom", "scenario_sorting_writer", "scenario_concurrent_rowgroups", "scenario_copy_rowgroup", "scenario_chunk_pages", "scenario_auto_rowgroups", "scenario_row_wrappers", "scenario_encrypted"},
+		Rule: "three fault families over 11 writer scenarios (default, WriteBufferSize 0/1, file- and chunk-backed page buffers, deferred bloom filters, SortingWriter, concurrent row groups, WriteRowGroup copy path, automatic row groups, RowWriter wrappers in front of the writer, encrypted files read with their keys): " +
 			"(a) the sink fails at byte offset k (error / short write with error / one transient failure): EVERY offset for files <= 4 KiB, else every write-call boundary +-1 plus PRNG offsets; oracle: some Write/Flush/Close returns an error, no panic, and a nil Close means the sink holds exactly the clean bytes; " +
 			"(b) every strict prefix (all lengths for files <= 4 KiB, else structural boundaries +-1 plus PRNG): OpenFile fails or the full read fails; (c) a fault at ReadAt call index i of open+full read (error / short read with error / early EOF): error or rows equal to the clean rows. " +
 			"Distinct = (scenario, file, fault family); non-trivial = at least one fault injected",
@@ -85,7 +85,18 @@ func (s *faultSink) Write(p []byte) (int, error) {
 	return s.buf.Write(p)
 }
 
-var c14Scenarios = []string{"plain", "nobuf", "file_pages", "deferred_bloom", "sorting_writer", "concurrent_rowgroups", "copy_rowgroup", "chunk_pages", "auto_rowgroups"}
+var c14Scenarios = []string{"plain", "nobuf", "file_pages", "deferred_bloom", "sorting_writer", "concurrent_rowgroups", "copy_rowgroup", "chunk_pages", "auto_rowgroups", "row_wrappers", "encrypted"}
+
+// the keys of scenario "encrypted"
+var c14Key = []byte("0123456789abcdef")
+
+type c14Keys struct{}
+
+func (c14Keys) FooterKey([]byte) ([]byte, error)           { return c14Key, nil }
+func (c14Keys) ColumnKey([]string, []byte) ([]byte, error) { return c14Key, nil }
+
+// errC14ShortCount: a RowWriter accepted fewer rows than it was given and reported no error.
+var errC14ShortCount = errors.New("short count without an error")
 
 // c14Produce runs one writer scenario against a sink and returns the first error of any call.
 func c14Produce(scenario string, te *typeEntry, rows reflect.Value, src *parquet.File, sink io.Writer, seed uint64) (err error) {
@@ -150,6 +161,50 @@ func c14Produce(scenario string, te *typeEntry, rows reflect.Value, src *parquet
 		for _, rg := range src.RowGroups() {
 			if _, err := w.WriteRowGroup(rg); err != nil {
 				return err
+			}
+		}
+		return w.Close()
+	case "row_wrappers":
+		// rows pass through the RowWriter wrappers in front of an unbuffered writer that flushes row groups
+		// from inside WriteRows: an error of the sink has to travel back through every wrapper
+		w := te.ops.NewWriter(sink, append(base, parquet.MaxRowsPerRowGroup(int64(gen.Pick(rr, []int{2, 7, 50}))), parquet.WriteBufferSize(0))...)
+		schema := te.ops.Schema()
+		var rw parquet.RowWriter = w
+		switch rr.Intn(5) {
+		case 0:
+			rw = parquet.FilterRowWriter(rw, func(parquet.Row) bool { return true })
+		case 1:
+			rw = parquet.TransformRowWriter(rw, func(dst, src parquet.Row) (parquet.Row, error) { return append(dst, src...), nil })
+		case 2:
+			rw = parquet.DedupeRowWriter(rw, schema.Comparator(parquet.Ascending("id")))
+		case 3:
+			rw = parquet.MultiRowWriter(rw)
+		default:
+			rw = parquet.FilterRowWriter(parquet.TransformRowWriter(parquet.MultiRowWriter(rw), func(dst, src parquet.Row) (parquet.Row, error) { return append(dst, src...), nil }), func(parquet.Row) bool { return true })
+		}
+		step := gen.Pick(rr, []int{1, 5, 100})
+		for lo := 0; lo < n; lo += step {
+			var batch []parquet.Row
+			for i := lo; i < min(n, lo+step); i++ {
+				batch = append(batch, schema.Deconstruct(nil, rows.Index(i).Interface()))
+			}
+			if k, err := rw.WriteRows(batch); err != nil {
+				return err
+			} else if k != len(batch) {
+				return fmt.Errorf("%w: WriteRows accepted %d of %d rows", errC14ShortCount, k, len(batch))
+			}
+		}
+		return w.Close()
+	case "encrypted":
+		w := te.ops.NewWriter(sink, append(base, parquet.WithEncryption(&parquet.EncryptionConfig{FooterKey: c14Key, EncryptedFooter: rr.Bool()}), parquet.WriteBufferSize(gen.Pick(rr, []int{0, 4096})))...)
+		for lo := 0; lo < n; lo += 30 {
+			if _, err := te.ops.Write(w, rows.Slice(lo, min(n, lo+30))); err != nil {
+				return err
+			}
+			if lo == 30 {
+				if err := w.Flush(); err != nil {
+					return err
+				}
 			}
 		}
 		return w.Close()
@@ -243,6 +298,9 @@ func (f *faultReaderAt) ReadAt(p []byte, off int64) (int, error) {
 // parquet.Read[T]; otherwise OpenFile with the options, then a typed reader.
 var c14FileOpts []parquet.FileOption
 
+// c14Encrypted: the file of the case is encrypted (scenario "encrypted"); it is opened with the keys.
+var c14Encrypted bool
+
 func c14ReadAll(te *typeEntry, r io.ReaderAt, size int64) (rows reflect.Value, err error) {
 	defer func() {
 		if p := recover(); p != nil {
@@ -251,10 +309,14 @@ func c14ReadAll(te *typeEntry, r io.ReaderAt, size int64) (rows reflect.Value, e
 		}
 	}()
 	c14BloomMisses = 0
-	if c14FileOpts == nil {
+	if c14FileOpts == nil && !c14Encrypted {
 		return te.ops.ReadAll(r, size)
 	}
-	f, err := parquet.OpenFile(r, size, c14FileOpts...)
+	fopts := c14FileOpts
+	if c14Encrypted {
+		fopts = append(append([]parquet.FileOption{}, fopts...), parquet.WithDecryption(c14Keys{}))
+	}
+	f, err := parquet.OpenFile(r, size, fopts...)
 	if err != nil {
 		return reflect.Value{}, err
 	}
@@ -302,6 +364,59 @@ func c14ReadAll(te *typeEntry, r io.ReaderAt, size int64) (rows reflect.Value, e
 	return out, nil
 }
 
+// c14ReadColumns reads the file column by column: for every column chunk the dictionary is loaded first through
+// the documented FilePages.ReadDictionary, then every page is read. The values come back as strings.
+func c14ReadColumns(r io.ReaderAt, size int64) (out []string, err error) {
+	defer func() {
+		if p := recover(); p != nil {
+			err = fmt.Errorf("PANIC: %v", p)
+			panic(p)
+		}
+	}()
+	fopts := c14FileOpts
+	if c14Encrypted {
+		fopts = append(append([]parquet.FileOption{}, fopts...), parquet.WithDecryption(c14Keys{}))
+	}
+	f, err := parquet.OpenFile(r, size, fopts...)
+	if err != nil {
+		return nil, err
+	}
+	for _, rg := range f.RowGroups() {
+		for _, chunk := range rg.ColumnChunks() {
+			pages := chunk.Pages()
+			if fp, ok := pages.(*parquet.FilePages); ok {
+				if _, err := fp.ReadDictionary(); err != nil {
+					pages.Close()
+					return out, err
+				}
+			}
+			for {
+				p, err := pages.ReadPage()
+				if err != nil {
+					if errors.Is(err, io.EOF) {
+						break
+					}
+					pages.Close()
+					return out, err
+				}
+				vals := make([]parquet.Value, p.NumValues())
+				n, err := p.Values().ReadValues(vals)
+				if err != nil && !errors.Is(err, io.EOF) {
+					parquet.Release(p)
+					pages.Close()
+					return out, err
+				}
+				for _, v := range vals[:n] {
+					out = append(out, fmt.Sprintf("%d:%d:%d:%v", v.Column(), v.RepetitionLevel(), v.DefinitionLevel(), v))
+				}
+				parquet.Release(p)
+			}
+			pages.Close()
+		}
+	}
+	return out, nil
+}
+
 // c14BloomMisses: ids that the last successful c14ReadAll read but whose bloom filter answered absent.
 var c14BloomMisses int
 
@@ -314,6 +429,8 @@ func runC14(c *Ctx) {
 	n := gen.Pick(r, []int{40, 120, 400})
 	if small {
 		n = gen.Pick(r, []int{2, 5, 12})
+	} else if scenario == "auto_rowgroups" || scenario == "row_wrappers" {
+		n = gen.Pick(r, []int{20, 40, 60}) // one row group every 1..7 rows: the fault enumeration re-runs the whole production per write call
 	}
 	rows := genRows(r, te, n, genOpts{NoHuge: true, SmallLists: true})
 	seed := r.U64()
@@ -338,6 +455,7 @@ func runC14(c *Ctx) {
 	default:
 		c.Obs("read_profile_default", 1)
 	}
+	c14Encrypted = scenario == "encrypted"
 	c.D("scenario", scenario)
 	c.D("family", family)
 	c.D("rows", n)
@@ -464,11 +582,17 @@ func runC14(c *Ctx) {
 			c.Obs("sink_mode_"+[]string{"error", "short", "transient"}[mode], 1)
 			if sink.errs == 0 {
 				// the scenario wrote fewer bytes than the clean run before reaching k: only legal if it reported an error
-				if err == nil && !bytes.Equal(sink.buf.Bytes(), data) {
+				// (the bytes of an encrypted file differ from run to run - nonces, file identifier -, its length does not)
+				if err == nil && (sink.buf.Len() != len(data) || !c14Encrypted && !bytes.Equal(sink.buf.Bytes(), data)) {
 					c.Fail("c14.sink_divergence", k2, "no failure was injected (offset %d never reached) yet the output differs from the clean run", k)
 					return
 				}
 				continue
+			}
+			if errors.Is(err, errC14ShortCount) {
+				c.Extra("fail_offset", k)
+				c.Fail("c14.sink_error_swallowed", k2, "the sink failed at byte offset %d of %d (%s) and the call that hit it returned fewer rows than given with a nil error: %v", k, N, []string{"error", "short write", "one transient failure"}[mode], err)
+				return
 			}
 			if err == nil {
 				c.Extra("fail_offset", k)
@@ -550,6 +674,35 @@ func runC14(c *Ctx) {
 		} else {
 			for i := 0; i < 60; i++ {
 				idx = append(idx, r.Intn(calls))
+			}
+		}
+		if c.Case%3 == 1 {
+			// column-wise read with the dictionaries loaded up front
+			cnt := &faultReaderAt{data: data, failAt: -1}
+			wantCols, err := c14ReadColumns(cnt, int64(N))
+			if err != nil {
+				c.Fail("harness.clean_read", keys, "column-wise: %v", err)
+				return
+			}
+			ccalls := cnt.calls
+			for i := 0; i < ccalls && i < 80; i++ {
+				for mode := 0; mode < 5; mode++ {
+					src := &faultReaderAt{data: data, failAt: i, mode: mode}
+					mname := []string{"error", "short_error", "early_eof", "early_eof", "persistent_short_eof"}[mode]
+					k2 := map[string]any{"scenario": scenario, "family": family, "mode": mname, "reader": "columns_after_read_dictionary"}
+					var gotCols []string
+					var err error
+					if c.guard("c14.panic", k2, func() { gotCols, err = c14ReadColumns(src, int64(N)) }) {
+						c.Extra("readat_call", i)
+						return
+					}
+					c.Obs("readat_faults_column_reads", 1)
+					if err == nil && !reflect.DeepEqual(wantCols, gotCols) {
+						c.Extra("readat_call", i)
+						c.Fail("c14.source_fault_absorbed", k2, "ReadAt call #%d of %d returned %s and reading the columns (ReadDictionary, then every page) succeeded with %d values that differ from the %d clean ones", i, ccalls, mname, len(gotCols), len(wantCols))
+						return
+					}
+				}
 			}
 		}
 		for _, i := range idx {
